@@ -14,6 +14,9 @@ Seams (all through the REAL library, `Cube(response, population=…)` / `CubeSet
             MoE additionally against Z·population·fraction·(library's own row/column/table std-err, whichever
             matches the chosen proportion) on every cell incl. differences.  Linearity: a second cube with k·population.
   strand  : the same for `_Strand`.
+  forms   : every frac shape is also fed as JSON text and as a {"value": …} envelope (dict / text) and must give the
+            dict form's fraction; slices and strands are fed in a random one of the four forms (float-valued
+            statistics such as 12.5 / 7.0 over 0 / 0.0 included).
   augment : multi-cube CubeSets over a text rows variable whose 2nd/3rd response is a single-column filter cube listing
             fewer labels than the summary (so `Cube.augment_response` rebuilds it): the augmented partition's
             population_counts / MoE / fraction against the Spec on the zero-padded survey and against a plain Cube.
@@ -81,8 +84,9 @@ def _mk(d):
     return d
 
 
-PAIRS = [(3, 1), (0, 0), (0, 5), (5, 0), (1.5, 0.5), (0.0, 0.0), (7, 2.25), (1, 1)]
-LEAVES = [ABSENT, None, 0, 2, 2.5, 0.0]
+PAIRS = [(3, 1), (0, 0), (0, 5), (5, 0), (1.5, 0.5), (0.0, 0.0), (7, 2.25), (1, 1), (7.0, 3.0), (12.5, 0.0)]
+LEAVES = [ABSENT, None, 0, 2, 2.5, 0.0, 7.0]
+FORMS = ["dict", "text", "envelope", "envelope-text"]
 ICD = [ABSENT, None, True, False]
 
 
@@ -164,6 +168,19 @@ MALFORMED = [
     ("odd-type", {"filter_stats": {"filtered_complete": {"weighted": {"selected": [1], "other": [2]}}}}),
     ("odd-type", {"filter_stats": {"filtered_complete": {"weighted": {"selected": 1, "other": "b"}}}}),
 ]
+
+
+def as_form(resp, form):
+    """the same response as the caller may hand it over: dict, JSON text, or a shoji {"value": …} envelope of either.
+    JSON text turns every number into what `json.loads` makes of it (ints stay ints, 7.0 / 0.0 / 12.5 floats)."""
+    import json
+    if form == "dict":
+        return resp
+    if form == "text":
+        return json.dumps(resp)
+    if form == "envelope":
+        return {"element": "shoji:view", "value": resp}
+    return json.dumps({"element": "shoji:view", "value": resp})
 
 
 def isnum(x):
@@ -331,7 +348,7 @@ def gen_table(rng, strand=False):
     return {"t": "strand" if strand else "slice", "vars": [v.to_json() for v in vars_],
             "survey": gen.survey_to_json(survey), "weighted": weighted,
             "subtotals": subs, "population": rng.choice(POPULATIONS), "k": rng.choice([2, 3, 0.5, 10]),
-            "extras": random_extras(rng)}
+            "extras": random_extras(rng), "form": rng.choice(FORMS)}
 
 
 def gen_augment(rng):
@@ -577,6 +594,12 @@ def eval_frac(case, louts, ctx):
         resp = _small_response(extras)
         impl = common.call_impl(lambda: Cube(resp, population=100).population_fraction)
         impl_part = common.call_impl(lambda: Cube(resp, population=100).partitions[0].population_fraction)
+        # the same response handed over as JSON text / in a {"value": …} envelope must give the same fraction
+        for form in FORMS[1:]:
+            impl_form = common.call_impl(lambda: Cube(as_form(resp, form), population=100).population_fraction)
+            if not _same(impl, impl_form):
+                findings.append({"kind": "spec", "locus": "population_fraction.form-" + form,
+                                 "detail": "dict form %r vs %s form %r on %r" % (impl, form, impl_form, extras)})
         impls.append(impl)
         model = _model_val(per["model"])
         wf = well_formed(extras)
@@ -612,7 +635,8 @@ def eval_frac(case, louts, ctx):
     n = len(case["results"])
     picks = [0, n // 2, n - 1] if n >= 3 else list(range(n))
     for order in (picks, picks[::-1]):
-        resps = [_small_response(case["results"][i]) for i in order]
+        form = "text" if order is picks else "dict"
+        resps = [as_form(_small_response(case["results"][i]), form) for i in order]
         cs = common.call_impl(lambda: CubeSet(resps, transforms=[{} for _ in resps], population=100, min_base=0).population_fraction)
         if not _same(cs, impls[order[0]]):
             findings.append({"kind": "spec", "locus": "cubeset.population_fraction",
@@ -672,7 +696,9 @@ def eval_table(case, louts, ctx):
     for k, val in extras.items():
         resp["result"][k] = copy.deepcopy(val)
     tr = _transforms(case, strand)
-    cube = Cube(resp, transforms=tr, population=pop)
+    form = case.get("form", "dict")
+    ctx.count("form:" + form)
+    cube = Cube(as_form(resp, form), transforms=tr, population=pop)
     frac_exact = py_fraction(extras)
     frac = common.model_to_float(_frac_wire(frac_exact))
     spec_frac = common.model_to_float(louts[0]["per"][0]["spec"])
@@ -684,7 +710,7 @@ def eval_table(case, louts, ctx):
     parts = cube.partitions
     if len(parts) != nparts:
         raise common.HarnessFault("partition count %d != %d" % (len(parts), nparts))
-    cube2 = Cube(copy.deepcopy(resp), transforms=copy.deepcopy(tr), population=pop * case["k"])
+    cube2 = Cube(as_form(copy.deepcopy(resp), form), transforms=copy.deepcopy(tr), population=pop * case["k"])
     for k in range(nparts):
         part = parts[k]
         out = louts[1 + k]
@@ -832,7 +858,7 @@ def describe(case):
                 "listed": [l for l, _ in _augment_cubes(case)], "population": case["population"], "extras": case["extras"]}
     return {"t": case["t"], "kinds": [v["kind"] for v in case["vars"]], "n_respondents": len(case["survey"]),
             "weighted": case["weighted"], "subtotals": case["subtotals"], "population": case["population"],
-            "extras": case["extras"]}
+            "extras": case["extras"], "form": case.get("form", "dict")}
 
 
 def shrink_candidates(case):
